@@ -420,6 +420,94 @@ theorem c29_encode_fallback_exceeds_small_limit :
     encode (.tok 0) (.tok 1) (some 1) 0 (.item [3, 4] [0, 3] 5) =
       .ok (some { ids := [0, 1], offsets := [0, 0], firstSeq := 2 }) := by rfl
 
+/-- Windows over a non-empty sequence are never an empty list. -/
+theorem chunkRanges_ne_nil {n size overlap : Nat} {rs : List (Nat × Nat)}
+    (h : chunkRanges n size overlap = some rs) (hn : 0 < n) : rs ≠ [] := by
+  obtain ⟨r, hr, _⟩ := c29_T2_cover n size overlap rs h 0 hn
+  intro he; rw [he] at hr; cases hr
+
+/-- **C29 — when does a pair produce no chunk at all?** `encode_chunks` on a pair returns
+`Ok(vec![])` **iff** the limit leaves no room for any content token, or the second sequence is
+empty, or the first sequence alone fills the room (`max_tokens ≤ |first|`). In the last two cases
+content tokens exist and there is room for some, yet nothing is covered (open findings
+`C29-pair-empty-second`, `C29-pair-first-fills-room`). -/
+theorem c29_pair_no_chunk_iff (cls sep : Option Nat) (limit : Option Nat) (overlap : Nat)
+    (toks1 offs1 toks2 offs2 : List Nat) (len1 len2 : Nat) :
+    encodePair cls sep limit overlap toks1 offs1 toks2 offs2 len1 len2 = some [] ↔
+      (maxTokens limit (toks1.length + toks2.length) (optLen cls + 2 * optLen sep) = 0 ∨
+       toks2 = [] ∨
+       maxTokens limit (toks1.length + toks2.length) (optLen cls + 2 * optLen sep) ≤ toks1.length) := by
+  unfold encodePair
+  simp only
+  generalize maxTokens limit (toks1.length + toks2.length) (optLen cls + 2 * optLen sep) = maxTok
+  by_cases h0 : maxTok = 0
+  · simp [h0]
+  · simp only [h0, if_false, false_or]
+    by_cases h1 : min toks2.length (maxTok - min toks1.length maxTok) = 0
+    · simp only [h1, if_true, true_iff]
+      rcases Nat.lt_or_ge toks1.length maxTok with hlt | hge
+      · left
+        have : min toks1.length maxTok = toks1.length := Nat.min_eq_left (Nat.le_of_lt hlt)
+        rw [this] at h1
+        have : toks2.length = 0 := by
+          rcases Nat.le_total toks2.length (maxTok - toks1.length) with hle | hle
+          · rw [Nat.min_eq_left hle] at h1; exact h1
+          · rw [Nat.min_eq_right hle] at h1; omega
+        exact List.length_eq_zero_iff.mp this
+      · exact Or.inr hge
+    · simp only [h1, if_false]
+      constructor
+      · intro h
+        exfalso
+        simp only [Option.map_eq_some_iff, List.map_eq_nil_iff] at h
+        obtain ⟨rs, hrs, rfl⟩ := h
+        have hpos : 0 < toks2.length := by
+          rcases Nat.eq_zero_or_pos toks2.length with hz | hp
+          · rw [hz] at h1; simp at h1
+          · exact hp
+        exact chunkRanges_ne_nil hrs hpos rfl
+      · rintro (h | h)
+        · subst h; simp at h1
+        · exfalso
+          have : min toks1.length maxTok = maxTok := Nat.min_eq_right h
+          rw [this] at h1; simp at h1
+
+/-- Witness (the reviewer's): limit 6 with CLS+SEP+SEP leaves room 3, the 3-token query takes it
+all, the 2 context tokens appear in no chunk. Pinned by the unit test "Chunk size too small for
+any tokens from the second sequence". -/
+theorem c29_pair_first_fills_room :
+    encodePair (some 0) (some 1) (some 6) 0 [3, 4, 5] [0, 3, 6] [103, 104] [8, 11] 8 5 = some [] := by
+  decide
+
+/-- **The first sequence of a pair is never truncated in an emitted chunk**: whenever at least one
+chunk is returned, `first_len = |first|` (the `[..first_len]` slice is the whole first sequence) —
+a longer first sequence leaves no room and falls under `c29_pair_no_chunk_iff`. -/
+theorem c29_pair_first_whole (cls sep : Option Nat) (limit : Option Nat) (overlap : Nat)
+    (toks1 offs1 toks2 offs2 : List Nat) (len1 len2 : Nat) (cs : List Chunk)
+    (h : encodePair cls sep limit overlap toks1 offs1 toks2 offs2 len1 len2 = some cs)
+    (hne : cs ≠ []) :
+    toks1.take (min toks1.length
+      (maxTokens limit (toks1.length + toks2.length) (optLen cls + 2 * optLen sep))) = toks1 := by
+  have hno : ¬ (encodePair cls sep limit overlap toks1 offs1 toks2 offs2 len1 len2 = some []) := by
+    rw [h]; intro he; exact hne (Option.some.inj he)
+  rw [c29_pair_no_chunk_iff] at hno
+  have : toks1.length < maxTokens limit (toks1.length + toks2.length) (optLen cls + 2 * optLen sep) := by
+    omega
+  rw [Nat.min_eq_left (Nat.le_of_lt this)]
+  exact List.take_length
+
+/-- A window of `chunkRanges` over `toks` selects a non-empty slice of an offsets list of the same
+length, so `offsets_chunk.first().unwrap()` (the `[CLS]` offset, modelled with `headD`) never
+fails. -/
+theorem c29_cls_offset_defined (n size overlap : Nat) (rs : List (Nat × Nat))
+    (h : chunkRanges n size overlap = some rs) (offs : List Nat) (hlen : offs.length = n)
+    (r : Nat × Nat) (hr : r ∈ rs) : slice offs r ≠ [] := by
+  have hb := c29_T2_windows_in_bounds n size overlap rs h r hr
+  intro he
+  have : (slice offs r).length = 0 := by rw [he]; rfl
+  simp only [slice, List.length_take, List.length_drop] at this
+  omega
+
 /-- **Pair with an empty second text**: no chunk is produced although there is room — the
 first sequence's tokens appear in no chunk (open finding `C29-pair-empty-second`). -/
 theorem c29_pair_empty_second_drops_first :
